@@ -194,7 +194,9 @@ pub fn adversarial_alphabet(code: &str) -> Vec<char> {
     let special = match code { "de" => 'ß', "fr" => 'œ', "es" => 'ñ', "pt" => 'ã', "ru" => 'ё', _ => 'é' };
     let up = match code { "ru" => 'Ж', _ => 'B' };
     let low = match code { "ru" => 'а', _ => 'a' };
-    vec![low, up, '1', ' ', '-', '\'', '\0', '\u{00A0}', '\u{0301}', special, 'ǅ', '🄰']
+    // `alias` has the same low byte as `low` (a table indexed by a truncated scalar would confuse the two)
+    let alias = match code { "ru" => '\u{630}', _ => '\u{161}' };
+    vec![low, up, '1', ' ', '-', '\'', '\0', '\u{00A0}', '\u{0301}', special, 'ǅ', '🄰', alias]
 }
 
 // ---------- streams ----------
